@@ -18,6 +18,7 @@ from typing import Any, Final, TextIO, TypeAlias
 from typing_extensions import Never
 
 from mypy import defaults
+from mypy.errorcodes import error_codes
 from mypy.options import PER_MODULE_OPTIONS, Options
 
 _CONFIG_VALUE_TYPES: TypeAlias = (
@@ -363,6 +364,9 @@ def parse_config_file(
                     file=stderr,
                 )
                 updates = {k: v for k, v in updates.items() if k in PER_MODULE_OPTIONS}
+            invalid_codes = remove_invalid_error_codes(updates)
+            if invalid_codes:
+                print(prefix, f"Invalid error code(s): {', '.join(invalid_codes)}", file=stderr)
 
             globs = name[5:]
             for glob in globs.split(","):
@@ -382,6 +386,21 @@ def parse_config_file(
                     )
                 else:
                     options.per_module_options[glob] = updates
+
+
+def remove_invalid_error_codes(updates: dict[str, object]) -> list[str]:
+    """Remove unknown error code names from a per-module or inline configuration.
+
+    Return the names that were removed (the global configuration is validated by
+    Options.process_error_codes() instead).
+    """
+    invalid: set[str] = set()
+    for key in ("enable_error_code", "disable_error_code"):
+        names = updates.get(key)
+        if isinstance(names, list):
+            invalid.update(name for name in names if name not in error_codes)
+            updates[key] = [name for name in names if name in error_codes]
+    return sorted(invalid)
 
 
 def get_prefix(file_read: str, name: str) -> str:
@@ -716,6 +735,9 @@ def parse_mypy_comments(
             and isinstance(dec := sections.get("disable_error_code", []), list)
         ):
             new_sections["disable_error_code"] = sorted(set(ndec + dec))
+        invalid_codes = remove_invalid_error_codes(new_sections)
+        if invalid_codes:
+            errors.append((lineno, f"Invalid error code(s): {', '.join(invalid_codes)}"))
         sections.update(new_sections)
     return sections, errors
 
